@@ -156,11 +156,6 @@ def check_diagnostics(ctx, impl, cnt, text, filename, lineno, recs):
         kind = ac.kind_of(r['text'])
         pos = r['positions']
         if not pos:
-            if kind in ac.VALIDATE_KINDS:
-                ctx.report_failure(ac.KEY_NO_POSITION, ac.PENDING_FINDINGS[0]['what'],
-                                   {'kind': 'text', 'text': text, 'diagnostic': r['text']})
-                cnt.hit('diag:pending(no-position)')
-                continue
             ctx.report_failure('noposition:' + json.dumps([text, r['text']]),
                                'diagnostic %r names no file/line for %r' % (r['text'], text),
                                {'kind': 'text', 'text': text, 'lineno': lineno, 'diagnostic': r})
@@ -193,11 +188,7 @@ def check_diagnostics(ctx, impl, cnt, text, filename, lineno, recs):
                                        % (r['text'], ln, r['marker_line'], src),
                                        {'kind': 'text', 'text': text, 'lineno': lineno, 'diagnostic': r})
                 continue
-            if r['marker_line'] != src and idx == len(lines) - 1 and end_comment(impl, src) == r['marker_line']:
-                ctx.report_failure(ac.KEY_END_TEXT, ac.PENDING_FINDINGS[1]['what'],
-                                   {'kind': 'text', 'text': text, 'lineno': lineno, 'diagnostic': r['text']})
-                cnt.hit('diag:pending(end-line-text)')
-            elif r['marker_line'] != src:
+            if r['marker_line'] != src:
                 ctx.report_failure('line:' + json.dumps([text, r['text']]),
                                    'diagnostic %r names line %d but quotes %r; that line of the source is %r'
                                    % (r['text'], ln, r['marker_line'], src),
@@ -499,9 +490,10 @@ def run(ctx):
                    '2 line matchers': 'modelled, corresponded',
                    'message log': 'modelled, proved (C11_count, C11_warn_fatal), corresponded',
                    '3 block state machine': 'modelled (parseBlock), proved total (C11_block_total) with line numbers '
-                   '(C11_line_step, C11_line_partial), corresponded (block tree + every diagnostic) on every text',
-                   'validate()': 'len(options) modelled (C11_validate_len_*); its diagnostics are validated on the real code '
-                   'by the statement oracles'},
+                   '(C11_line_step, C11_line incl. the positions validate() reports), corresponded (block tree with every '
+                   'annotations.position + every diagnostic) on every text',
+                   'validate()': 'len(options) total (C11_validate_len), reported positions modelled (validatePositions, C11_line); '
+                   'its message texts are validated on the real code by the statement oracles'},
         'exhaustive': False,
     })
     ctx.assumptions.extend([
